@@ -391,7 +391,8 @@ def run(chk):
             n_lf += 1
     if n_lf < 2:
         chk.violation("C01.rej.chunklf", pp, "if b'\\n' in chunk: raise TransferEncodingError", f"found {n_lf} of 2 (chunk-size line, trailer line)", "bare LF in a chunk-size or trailer line is buffered instead of refused")
-    rej("C01.rej.chunkcrlf", pp, [("chunk[:len($S)] == $S", False, "no CRLF after chunk data")], ALL, "missing CRLF after chunk data", extra=[("chunk == $S[:len(chunk)]", False), ("len(chunk) < len($S)", False)])
+    rej("C01.rej.chunkcrlf", pp, [([("chunk[:len($S)] == $S", False), ("chunk[$A:$B] == $S", False)], True, "no CRLF after chunk data")], ALL, "missing CRLF after chunk data",
+        extra=[("chunk == $S[:len(chunk)]", False), ("len(chunk) < len($S)", False), ("$E == $S[:len($E)]", False), ("len($E) < len($S)", False)])
     rej("C01.rej.trailerlong", pp, [("len(line) > self._max_field_size", True, "trailer too long")], ALL, "trailer line too long")
     rej("C01.rej.trailers", pp, [("len(self._trailer_lines) > self._max_trailers", True, "too many trailers")], ALL, "too many trailers", extra=[("len(line) > self._max_field_size", False)])
     rej("C01.rej.chunktail", pp, [("len(self._chunk_tail) - self._chunk_tail.endswith(b'\\r') > $L", True, "buffered partial chunk-size/trailer line too long")], ALL,
